@@ -1085,8 +1085,9 @@ def handle_ifs(args, op_range=None):
                 return VALUE_ERROR
 
     # count the number of times a particular cell matches the criteria
+    # (a criterion read from an empty cell is the number 0)
     index_counts = collections.Counter(it.chain.from_iterable(
-        find_corresponding_index(rng, criteria)
+        find_corresponding_index(rng, 0 if criteria is None else criteria)
         for rng, criteria in zip(ranges, args[1::2])))
 
     ifs_count = len(args) // 2
